@@ -3,6 +3,7 @@ CONSTANTS
   P = 2
   J = 2
   R = 2
+  BossWorks = TRUE
 INVARIANTS AtMostOnce RealJobs
 PROPERTY Termination
 CHECK_DEADLOCK FALSE
